@@ -1,5 +1,6 @@
 SPECIFICATION Spec
 CONSTANTS DC = {"d1", "d2"}
+  Groups = {{"d1"}, {"d2"}}
   Counts = {1}
   GlobalCounts = {1, 2}
   MaxPhys = 3
